@@ -377,7 +377,7 @@ class Macro:
                     if not isop(body[k], "*", "+", "?"):
                         sep = body[k]
                         k += 1
-                    used = [body[x + 1][1] for x in range(len(sub) - 1) if isop(sub[x], "$") and sub[x + 1][0] == "id"]
+                    used = [sub[x + 1][1] for x in range(len(sub) - 1) if isop(sub[x], "$") and sub[x + 1][0] == "id"]
                     lists = {v: b[v] for v in used if v in b and isinstance(b[v], list)}
                     if not lists:
                         raise TranslateError(f"macro {self.name}: repetition without repeated metavariable")
